@@ -187,6 +187,17 @@ def mk(docs, job, cfg):
         for topic in sorted(acked):
             got = []
             for _ in range(len(acked[topic]) + 6):
+                if job.get('drain') == 'batch':
+                    # the first consuming call after the restart is a batch read (unbounded budget)
+                    res = engine.api(x, w2, 'batch_read_for_topic', [PStr(topic), BV(bv64(MAXU), 64), True, NONE])
+                    if res.variant != 'Ok':
+                        bad = ('read-error', 'batch read after recovery failed')
+                        break
+                    items = x.deref(res.f[0]).items
+                    if not items:
+                        break
+                    got.extend(items)
+                    continue
                 res = engine.api(x, w2, 'read_next', [PStr(topic), True])
                 if res.variant != 'Ok':
                     bad = ('read-error', 'read_next after recovery failed')
@@ -209,7 +220,13 @@ def mk(docs, job, cfg):
                 ids = []
                 for en in got:
                     cands = []
-                    for u in ack + infl:
+                    pool = ack + infl
+                    if conc and len(pool) > 16:
+                        # concrete sizes: a non-empty entry can only equal the payload whose descriptor it carries
+                        chs = engine.entry_chunks(x, en)
+                        if len(chs) == 1 and isinstance(chs[0], Opaque) and chs[0].uid in size_of:
+                            pool = [chs[0].uid]
+                    for u in pool:
                         eq = engine.entry_is(x, en, u, size_of[u].t)
                         if eq is True or (eq is not False and x.valid(eq)):
                             cands.append(u)
